@@ -16,6 +16,7 @@ class Sim:
 
     def __init__(self, nxt, specs):
         self.nxt, self.tok, self.closed, self.fresh = nxt, ('in', 0), set(), 1
+        self.canc, self.must_run = set(), None     # waiters whose context ended before they parked (Notify.xstep)
         self.pc = []
         for sp in specs:
             k = sp[0]
@@ -27,7 +28,7 @@ class Sim:
         if p[0] in ('W1', 'S0', 'C0'):
             return self.tok[0] != 'held'
         if p[0] == 'W4':
-            return p[2] in self.closed
+            return p[2] in self.closed or i in self.canc
         return p[0] in ('W0', 'W2', 'W3', 'S1', 'S2', 'S3', 'C1', 'C2')
 
     def step(self, i):
@@ -48,8 +49,13 @@ class Sim:
         elif k == 'W3':
             self.tok = ('in', p[2])
             p[0] = 'WOk' if p[3] else 'W4'
+            if p[0] == 'W4' and i in self.canc:
+                # its select must run before anybody can close the channel: with the context over AND the channel
+                # closed Go's select may return either way
+                self.must_run = i
         elif k == 'W4':
-            p[0] = 'WOk'
+            p[0] = 'WCanceled' if (i in self.canc and p[2] not in self.closed) else 'WOk'
+            self.must_run = None
         elif k == 'S1':
             self.nxt = max(self.nxt, p[1])
             p[0] = 'S2'
@@ -68,8 +74,14 @@ class Sim:
         # a waiter whose channel is already closed wakes by itself: cancelling it would race with that
         return self.pc[i][0] == 'W4' and self.pc[i][2] not in self.closed
 
+    def early_cancel_ok(self, i):
+        return self.pc[i][0] in ('W0', 'W1', 'W2', 'W3') and i not in self.canc
+
     def cancel(self, i):
-        self.pc[i][0] = 'WCanceled'
+        if self.pc[i][0] == 'W4':
+            self.pc[i][0] = 'WCanceled'
+        else:
+            self.canc.add(i)
 
 
 def gen_case(rng, tier):
@@ -86,8 +98,13 @@ def gen_case(rng, tier):
     sim = Sim(nxt, specs)
     sched = []
     for _ in range(rng.randrange(3, 40)):
+        if sim.must_run is not None:
+            i = sim.must_run
+            sim.step(i)
+            sched.append(str(i))
+            continue
         if rng.random() < 0.06:
-            c = [i for i in range(len(specs)) if sim.cancel_ok(i)]
+            c = [i for i in range(len(specs)) if sim.cancel_ok(i) or sim.early_cancel_ok(i)]
             if c:
                 i = rng.choice(c)
                 sim.cancel(i)
@@ -100,6 +117,8 @@ def gen_case(rng, tier):
         i = rng.choice(en)
         sim.step(i)
         sched.append(str(i))
+    if sim.must_run is not None:
+        sched.append(str(sim.must_run))
     if not sched:
         sched = ['0']
     return 'nrun %d %s %s' % (nxt, ','.join(specs), ','.join(sched))
